@@ -7,7 +7,7 @@ cd $WT || exit 2
 git checkout -q -- . && git clean -fdq
 DEMO=$(python3 -c "import json;print(json.load(open('$M/meta.json'))['demo_path'])")
 CMD=$(python3 -c "import json;print(json.load(open('$M/meta.json'))['demo_cmd'])")
-DF=$(ls $M | grep -v -e patch.diff -e meta.json | head -1)
+DF=$(basename $DEMO); [ -f $M/$DF ] || DF=$(ls $M | grep -v -e '\.diff$' -e meta.json | head -1)
 mkdir -p $(dirname $DEMO); cp $M/$DF $DEMO
 echo "== without patch: $CMD"; (eval "timeout 300 $CMD" >/tmp/seed_demo.log 2>&1; echo rc=$?) | tail -1
 git apply $M/patch.diff || { echo "PATCH DOES NOT APPLY"; exit 3; }
